@@ -4,6 +4,7 @@ import (
 	"crypto/sha1"
 	"encoding/json"
 	"fmt"
+	"hash/fnv"
 	"os"
 	"path/filepath"
 	"regexp"
@@ -26,8 +27,8 @@ type Ctx struct {
 
 	mu          sync.Mutex
 	evals       int64
-	shapes      map[string]int64 // distinct non-trivial shapes
-	rules       map[string]int64 // coverage by rule / action
+	shapes      map[uint64]struct{} // distinct non-trivial shapes (by 64-bit FNV hash: millions of long inputs do not fit as strings)
+	rules       map[string]int64    // coverage by rule / action
 	samples     []interface{}
 	states      int64
 	transitions int64
@@ -54,7 +55,7 @@ type violation struct {
 
 func newCtx(id, tier string, seed int64) *Ctx {
 	c := &Ctx{ID: id, Tier: tier, Seed: seed, Start: time.Now(),
-		shapes: map[string]int64{}, rules: map[string]int64{}, drift: map[string]int64{},
+		shapes: map[uint64]struct{}{}, rules: map[string]int64{}, drift: map[string]int64{},
 		knownHit: map[string]string{}, extra: map[string]interface{}{}, exhaustive: false,
 		assumptions: []string{"TLC explores the stated bounded space completely; beyond it only seeded samples", "the TLA+ reference semantics (spec/PlushSem.tla) is the documented meaning"}}
 	c.findings = loadFindings()
@@ -68,9 +69,15 @@ func (c *Ctx) Eval(shape string) {
 	c.mu.Lock()
 	c.evals++
 	if shape != "" {
-		c.shapes[shape]++
+		c.shapes[shapeKey(shape)] = struct{}{}
 	}
 	c.mu.Unlock()
+}
+
+func shapeKey(s string) uint64 {
+	h := fnv.New64a()
+	h.Write([]byte(s))
+	return h.Sum64()
 }
 
 func (c *Ctx) Rule(r string) {
